@@ -87,7 +87,9 @@ def o_C01(ctx):
     v = []
     for s, c, t in parser_cases(ctx, ("struct", "small", "len", "num")):
         r = res_of(t)
-        if r[0] == "panic":
+        if first(t, "x_timeout") == "1":
+            v.append(([c.id], "%s does not return within the per-case time limit (non-termination: looping without consuming input)" % c.entry))
+        elif r[0] == "panic":
             v.append(([c.id], "panic (caught by catch_unwind) in %s" % c.entry))
         elif r[0] == "missing":
             v.append(([c.id], "no result: the harness process aborted or timed out on this case (%s)" % c.entry))
